@@ -386,7 +386,10 @@ class Fn:
         if idx == "t":
             t = self.blocks[bb]["t"]
             c = Call(self, bb, t)
-            return ("call", c.name(), tuple(self.expr(a, depth + 1) for a in c.args), (bb,))
+            nm = c.name()
+            if nm in ("core::mem::size_of", "core::mem::align_of"):
+                nm = "%s::<%s>" % (nm, ",".join(c.ga))
+            return ("call", nm, tuple(self.expr(a, depth + 1) for a in c.args), (bb,))
         rv = self.blocks[bb]["s"][idx][2]
         return self.rvalue_expr(rv, depth + 1)
 
